@@ -301,4 +301,59 @@ theorem matOutputLoop_eq (rows : List (List Int)) (out : List Ch) : matOutputLoo
       simp [matBody]
       intro h; cases h
 
+/-! ## `io::get` / `io::peek` / `io::expect`, enum arrays -/
+
+/-- `io::peek` does not consume: `io::get` right after it returns the same character and removes exactly it -/
+theorem get_after_peek' (s : IStream) (c : Ch) (h : (peek s).2 = some c) :
+    ∃ r, (peek s).1 = s ∧ s.buf = c :: r ∧ ioGet s = ({ s with buf := r }, some c) := by
+  unfold peek sentry at h ⊢
+  unfold ioGet sentry
+  cases hg : s.good with
+  | false => simp [hg] at h
+  | true =>
+    simp only [hg, if_true] at h ⊢
+    cases hb : s.buf with
+    | nil => simp [hb] at h
+    | cons d r =>
+      simp only [hb] at h ⊢
+      cases h
+      refine ⟨r, ?_, rfl, ?_⟩ <;> simp_all
+
+/-- `io::expect(stream, c)`: white space is skipped, the next character is consumed; it is `c` or `failbit` is set -/
+theorem expect_spec' (ws : List Ch) (d : Ch) (rest : List Ch) (c : Ch) (hws : AllSpace ws) (hd : isSpace d = false) :
+    expect (IStream.ofString (ws ++ d :: rest)) c = { buf := rest, eof := false, fail := decide (d ≠ c) } := by
+  unfold IStream.ofString
+  rw [expect_skip ws _ c hws]
+  unfold expect
+  rw [getChar_nonspace d rest hd]
+  by_cases h : d = c
+  · simp [h]
+  · simp [h]
+
+/-- … and at the end of the text: `eofbit | failbit`. -/
+theorem expect_at_end' (ws : List Ch) (c : Ch) (hws : AllSpace ws) :
+    expect (IStream.ofString ws) c = { buf := [], eof := true, fail := true } := by
+  have hd : ws.dropWhile isSpace = [] := by
+    have := dropWhile_space_append ws [] hws
+    simpa using this
+  simp [expect, getChar, sentry, IStream.ofString, IStream.good, hd]
+
+/-- the text between the brackets of an enum array -/
+def enumArrayBody : List (List Ch × Int) → List Ch
+  | [] => []
+  | [(n, v)] => n ++ [61] ++ putInt v
+  | (n, v) :: w :: r => n ++ [61] ++ putInt v ++ [44] ++ enumArrayBody (w :: r)
+
+theorem enumArrayOutputLoop_eq (l : List (List Ch × Int)) (out : List Ch) : enumArrayOutputLoop l out = out ++ enumArrayBody l := by
+  induction l generalizing out with
+  | nil => simp [enumArrayOutputLoop, enumArrayBody]
+  | cons a l ih =>
+    obtain ⟨n, v⟩ := a
+    cases l with
+    | nil => simp [enumArrayOutputLoop, enumArrayBody]
+    | cons w r =>
+      rw [enumArrayOutputLoop, ih]
+      · simp [enumArrayBody]
+      · intro h; cases h
+
 end Fcppt.C15
